@@ -5,6 +5,8 @@ import (
 	"time"
 
 	yae "github.com/goghcrow/yae"
+	"github.com/goghcrow/yae/types"
+	"github.com/goghcrow/yae/val"
 
 	"verif/harness/bridge"
 	"verif/harness/ref"
@@ -102,6 +104,7 @@ func checkOptionalMisuse(c *run.Ctx, id string, e *ref.E, env *bridge.Env, why s
 }
 
 func runC16(c *run.Ctx) {
+	envUpdatedInPlace(c)
 	g0 := &ref.Gen{R: c.Rng("env", 0)}
 	env0 := c16Env(g0)
 	// 1. every built-in, every parameter position: the optional of the required type
@@ -314,6 +317,100 @@ type c16Rec struct {
 	Items []c16Item `yae:"items"`
 }
 
+// envUpdatedInPlace: a host keeps one *types.Env and one engine; a variable
+// turns optional (and back) by Put on that same object; every compilation of
+// the same texts must follow the environment as it is at that moment.
+func envUpdatedInPlace(c *run.Ctx) {
+	type prog struct {
+		src       string
+		okPlain   bool // accepted when x : num
+		okOpt     bool // accepted when x : maybe[num]
+		wantPlain float64
+		wantAbs   float64 // result when x is absent (only when okOpt)
+	}
+	progs := []prog{
+		{"x + xs[0]", true, false, 3, 0},
+		{"get(x, 40) + xs[0]", false, true, 0, 42},
+		{"xs[x]", true, false, 5, 0},
+		{"-x", true, false, -1, 0},
+		{"max(x, 0)", true, false, 1, 0},
+		{"if(x > 0, 1, 2)", true, false, 1, 0},
+		{"[x, 1][0]", true, false, 1, 0},
+		{"get([x][0], 7)", false, true, 0, 7},
+		{"len([x, x])", true, true, 2, 2},
+		{"get(x, xs[1])", false, true, 0, 5},
+	}
+	backs := []func(*yae.Expr) *yae.Expr{
+		func(e *yae.Expr) *yae.Expr { return e.UseBytecodeCompiler() },
+		func(e *yae.Expr) *yae.Expr { return e.UseClosureCompiler() },
+		func(e *yae.Expr) *yae.Expr { return e },
+	}
+	n := 0
+	for bi, use := range backs {
+		for start := 0; start < 2; start++ {
+			for pi := range progs {
+				n++
+				if !c.Mine(n) {
+					continue
+				}
+				bi, use, start, pi := bi, use, start, pi
+				c.Case(fmt.Sprintf("env-updated/%d/%d/%d", bi, start, pi), func() {
+					ex := use(yae.NewExpr())
+					tenv := types.NewEnv()
+					tenv.Put("xs", types.List(types.Num))
+					lst := val.List(types.List(types.Num).List(), 2)
+					lst.List().V[0], lst.List().V[1] = val.Num(2), val.Num(5)
+					for round := 0; round < 6; round++ {
+						opt := (round+start)%2 == 1
+						if opt {
+							tenv.Put("x", types.Maybe(types.Num))
+						} else {
+							tenv.Put("x", types.Num)
+						}
+						// the program under test and, in between, the others
+						for _, k := range []int{pi, (pi + 1 + round) % len(progs), pi} {
+							p := progs[k]
+							c.Count("optional_misuse_programs", 1)
+							what := fmt.Sprintf("%q with x : %s (round %d on one engine and one *types.Env updated in place, back end %d)", p.src, map[bool]string{false: "num", true: "maybe[num]"}[opt], round, bi)
+							cl, err := ex.Compile(p.src, tenv)
+							want := p.okPlain
+							if opt {
+								want = p.okOpt
+							}
+							if (err == nil) != want {
+								if err == nil {
+									c.Violation("optional-accepted", "accepted: "+what, nil)
+								} else {
+									c.Violation("reference-disagrees", fmt.Sprintf("refused (%v): %s", err, what), nil)
+								}
+								return
+							}
+							if err != nil {
+								continue
+							}
+							venv := val.NewEnv()
+							venv.Put("xs", lst)
+							wantV := p.wantPlain
+							if opt {
+								venv.Put("x", val.Nothing(types.Num))
+								wantV = p.wantAbs
+							} else {
+								venv.Put("x", val.Num(1))
+							}
+							v, rerr := cl(venv)
+							if rerr != nil || v.Type.Kind != types.KNum || v.Num().V != wantV {
+								c.Violation("optional-value", fmt.Sprintf("%s yields %v (%v); expected %v", what, safeStr(v), rerr, wantV), nil)
+								return
+							}
+							c.Distinct(fmt.Sprintf("%s/%v", p.src, opt))
+						}
+					}
+				})
+			}
+		}
+	}
+}
+
 // untaggedPointers: nil-ness of an untagged pointer decides between T and
 // maybe[T]; absence must never be read as a T.
 func untaggedPointers(c *run.Ctx) {
@@ -417,7 +514,7 @@ func init() {
 	run.Register(&run.Spec{
 		ID: "C16", Run: runC16, Level: "exploration",
 		Rule: "(1) every built-in / operator x every parameter position whose type is not a bare type variable: the call with that argument replaced by an optional of exactly the required type, in call / infix / prefix / method / ternary form (exhaustive over the function table); (2) 21 hand-listed misuse shapes (member / subscript on optionals, optional as index or key, optional fields nested in objects / list elements in arithmetic, == on optionals, optional mixed with plain in lists / branches, defaults of the wrong type, nested optionals): all must be refused at the type-check stage; " +
-			"(3) random programs over environments with present / absent optionals as variables and nested in objects, lists and maps, forced get(optional, default) consumptions, run on 4 back ends from raw environments and through yae.Eval over reflection-built structs with nil / non-nil pointers, slices and maps: never an internal fault, value == reference evaluator; (4) host slices of structs with untagged pointer fields in every presence pattern and one Callable invoked with present / absent values alternately: an absent value is never read as a value of the underlying type. distinct = distinct source",
+			"(3) random programs over environments with present / absent optionals as variables and nested in objects, lists and maps, forced get(optional, default) consumptions, run on 4 back ends from raw environments and through yae.Eval over reflection-built structs with nil / non-nil pointers, slices and maps: never an internal fault, value == reference evaluator; (4) host slices of structs with untagged pointer fields in every presence pattern and one Callable invoked with present / absent values alternately: an absent value is never read as a value of the underlying type. (5) one engine and one *types.Env updated in place so that a variable alternates between T and maybe[T], the same ten texts recompiled after every update on three back ends: acceptance follows the environment of that moment. distinct = distinct source",
 		Assume:    []string{"parameters that are bare type variables (string, print, if branches, list elements, fst ...) accept optionals by design; the reference checker decides there"},
 		MinEvents: 1000, EventKey: "optional_programs",
 	})
